@@ -9,6 +9,16 @@ ROOT = os.path.dirname(os.path.dirname(os.path.abspath(__file__)))
 
 # id -> (level, technique, text, note, design_ref)
 CHECKS = {
+    "C05": (
+        "exploration",
+        "deterministic simulation on a discrete-event clock with seeded sub-second phase: due times around 'now', consumer polling phases; take instants read from the broker side",
+        "1-8 messages with due times from -1 h to +1 y (sub-second, seconds, far future) through Job(deferred_until) and through "
+        "next_execution_time, on all three brokers, NORMAL consumer starting before/after at seeded phases, optional DELAYED "
+        "observer. Never early (take instant from DummyQueue / SimRedis log / SimRabbit log vs T - 1 ms), 'delayed only' 1 ms "
+        "before T, delivered within a per-broker bound after max(T, listen start), far-future never delivered.",
+        "Samples scenarios. RabbitMQ head-only TTL lateness is a listed known finding, matched only against an executable prediction of that mechanism; other lateness is a violation.",
+        "DESIGN.md section 8 C05",
+    ),
     "C14": (
         "exploration",
         "deterministic simulation: concurrent consumers/workers on one queue with seeded overlapping round trips (and a Redis worker kill + maintenance); ownership oracle over the global event order",
